@@ -1,3 +1,395 @@
-import QtyModel.Tables
+import QtyModel.Props.C05
+import QtyModel.Props.C02
+import QtyModel.Derived
+/-
+  C04 — Derived products and quotients preserve the physical value.
+
+  Property theorems only.  The bound `Oracle.derivedBound` is the expression the
+  run-time oracle `Oracle.c04` evaluates on implementation outputs.
+-/
+set_option linter.unusedSectionVars false
 namespace Qty.C04
+open Qty
+
+variable {A U V W : Type} [DecidableEq U] [DecidableEq V] [DecidableEq W] (R : Arith A)
+
+/-- which operators a derivation generates: `Q = L * R` gives `L*R`, `R*L` (once if `L = R`),
+`Q/R = L` and `Q/L = R`; `Q = L / R` gives `L/R`, `Q*R`, `R*Q` and `L/Q = R` -/
+theorem impls_of_product (q l r : Text) (h : l ≠ r) :
+    implsOf q (some ⟨l, true, r⟩) =
+      [⟨true, l, r, q⟩, ⟨true, r, l, q⟩, ⟨false, q, r, l⟩, ⟨false, q, l, r⟩] := by
+  simp [implsOf, implMulQties, implDivQties, h]
+
+theorem impls_of_square (q l : Text) :
+    implsOf q (some ⟨l, true, l⟩) = [⟨true, l, l, q⟩, ⟨false, q, l, l⟩] := by
+  simp [implsOf, implMulQties, implDivQties]
+
+theorem impls_of_quotient (q l r : Text) (h : q ≠ r) :
+    implsOf q (some ⟨l, false, r⟩) =
+      [⟨false, l, r, q⟩, ⟨true, q, r, l⟩, ⟨true, r, q, l⟩, ⟨false, l, q, r⟩] := by
+  simp [implsOf, implMulQties, implDivQties, h]
+
+/-- Common tail of the generated `Mul`/`Div` bodies: `p` is the computed product (quotient) of
+the amounts, `s` the computed product (quotient) of the unit scales. -/
+theorem tail_mag {M : ErrModel} (L : Laws R M) (TO : QT A W)
+    (hI : TO.fitIdentity = none) (href : TO.ref ∈ TO.units)
+    (pa ps : Rat) (p s : A) (pv sv : Rat)
+    (hp : R.val p = some pv) (hs : R.val s = some sv)
+    (hpe : |pv - pa| ≤ M.E pa) (hse : |sv - ps| ≤ M.E ps)
+    (sc : W → Rat) (hsc : ∀ u ∈ TO.units, R.val (TO.scale u) = some (sc u) ∧ sc u ≠ 0)
+    (hsafe : ∀ u ∈ TO.units, Oracle.derivedSafe M pa ps (sc u) = true)
+    (hneg : ∀ u ∈ TO.units, sc u < 0 →
+      M.safe (((ratAbs pa + M.E pa) * (ratAbs ps + M.E ps)
+        + M.E ((ratAbs pa + M.E pa) * (ratAbs ps + M.E ps))) / sc u) = true) :
+    ∃ res z,
+      ((∃ w, unitFromScale R TO s = some w ∧ res = ⟨p, w⟩) ∨
+       (unitFromScale R TO s = none ∧ ∃ x, R.mul p s = .ok x ∧ fit R TO x = .ok res)) ∧
+      res.unit ∈ TO.units ∧ R.val res.amount = some z ∧
+      ratAbs (z * sc res.unit - pa * ps) ≤ Oracle.derivedBound M pa ps (sc res.unit) := by
+  simp only [Oracle.derivedSafe, Oracle.derivedBound, Bool.and_eq_true, ratAbs_eq_abs] at *
+  have hEpa := L.wf.E_nonneg pa
+  have hEps := L.wf.E_nonneg ps
+  set P := |pa| + M.E pa with hPdef
+  set S := |ps| + M.E ps with hSdef
+  have hP0 : 0 ≤ P := by positivity
+  have hS0 : 0 ≤ S := by positivity
+  have hEPS := L.wf.E_nonneg (P * S)
+  have hP : |pv| ≤ P := by
+    have := abs_sub_abs_le_abs_sub pv pa
+    linarith
+  have hS : |sv| ≤ S := by
+    have := abs_sub_abs_le_abs_sub sv ps
+    linarith
+  have hcore : |pv * sv - pa * ps| ≤ P * M.E ps + |ps| * M.E pa := by
+    have key : pv * sv - pa * ps = pv * (sv - ps) + ps * (pv - pa) := by ring
+    rw [key]
+    calc |pv * (sv - ps) + ps * (pv - pa)|
+        ≤ |pv * (sv - ps)| + |ps * (pv - pa)| := abs_add_le _ _
+      _ = |pv| * |sv - ps| + |ps| * |pv - pa| := by rw [abs_mul, abs_mul]
+      _ ≤ P * M.E ps + |ps| * M.E pa := by
+          have h1 := mul_le_mul hP hse (abs_nonneg _) hP0
+          have h2 := mul_le_mul_of_nonneg_left hpe (abs_nonneg ps)
+          linarith
+  cases hf : unitFromScale R TO s with
+  | some w =>
+    have hwm : w ∈ TO.units := List.mem_of_find?_eq_some hf
+    have hwb : R.beq (TO.scale w) s = true :=
+      List.find?_some (p := fun u => R.beq (TO.scale u) s) hf
+    rw [L.beq_val _ _ _ _ (hsc w hwm).1 hs] at hwb
+    have hsw : sc w = sv := by simpa using hwb
+    refine ⟨⟨p, w⟩, pv, Or.inl ⟨w, rfl, rfl⟩, hwm, hp, ?_⟩
+    dsimp only
+    rw [hsw]
+    have h1 := L.wf.E_nonneg ((P * S + M.E (P * S)) / sv)
+    have h2 : 0 ≤ |sv| * M.E ((P * S + M.E (P * S)) / sv) := by positivity
+    linarith
+  | none =>
+    obtain ⟨⟨⟨hsP, hsS⟩, hsX⟩, -⟩ := hsafe TO.ref href
+    have hPS0 : 0 ≤ P * S := by positivity
+    have hpvsv : |pv * sv| ≤ P * S := by
+      rw [abs_mul]; exact mul_le_mul hP hS (abs_nonneg _) hP0
+    have hsafe1 : M.safe (pv * sv) = true := by
+      apply L.wf.safe_mono _ _ _ hsX
+      simp only [ratAbs_eq_abs]
+      rw [abs_of_nonneg (by linarith : 0 ≤ P * S + M.E (P * S))]
+      linarith
+    obtain ⟨x, xv, hmul, hxv, hxe⟩ := L.mul_ok p s pv sv hp hs hsafe1
+    rw [ratAbs_eq_abs] at hxe
+    have hE1 : M.E (pv * sv) ≤ M.E (P * S) := by
+      apply L.wf.E_mono
+      simp only [ratAbs_eq_abs]
+      rw [abs_of_nonneg hPS0]; exact hpvsv
+    have hX0 : 0 ≤ P * S + M.E (P * S) := by linarith
+    have hxvX : |xv| ≤ P * S + M.E (P * S) := by
+      have := abs_sub_abs_le_abs_sub xv (pv * sv)
+      linarith
+    obtain ⟨w, hwel, hfit⟩ := C05.fit_eq_div R TO hI href x
+    have hwm : w ∈ TO.units := ((C05.mem_eligible TO w).mp hwel).1
+    obtain ⟨hswv, hsw0⟩ := hsc w hwm
+    obtain ⟨-, hsQ⟩ := hsafe w hwm
+    have hquot : |xv / sc w| ≤ |(P * S + M.E (P * S)) / sc w| := by
+      rw [abs_div, abs_div, abs_of_nonneg hX0]
+      exact div_le_div_of_nonneg_right hxvX (abs_nonneg _)
+    have hsafe2 : M.safe (xv / sc w) = true := by
+      rcases lt_or_gt_of_ne hsw0 with hlt | hgt
+      · apply L.wf.safe_mono _ _ _ (hneg w hwm hlt)
+        simp only [ratAbs_eq_abs]; exact hquot
+      · apply L.wf.safe_mono _ _ _ hsQ
+        simp only [ratAbs_eq_abs]
+        refine le_trans hquot ?_
+        have h1 : 0 ≤ (P * S + M.E (P * S)) / sc w := div_nonneg hX0 (le_of_lt hgt)
+        have h2 := L.wf.E_nonneg ((P * S + M.E (P * S)) / sc w)
+        rw [abs_of_nonneg h1, abs_of_nonneg (by linarith)]
+        linarith
+    obtain ⟨c, z, hdiv, hzv, hze⟩ := L.div_ok x (TO.scale w) xv (sc w) hxv hswv hsw0 hsafe2
+    rw [ratAbs_eq_abs] at hze
+    have hE2 : M.E (xv / sc w) ≤ M.E ((P * S + M.E (P * S)) / sc w) := by
+      apply L.wf.E_mono
+      simp only [ratAbs_eq_abs]; exact hquot
+    rw [hdiv] at hfit
+    refine ⟨⟨c, w⟩, z, Or.inr ⟨rfl, x, hmul, hfit⟩, hwm, hzv, ?_⟩
+    dsimp only
+    have key : z * sc w - pa * ps
+        = sc w * (z - xv / sc w) + (xv - pv * sv) + (pv * sv - pa * ps) := by
+      field_simp; ring
+    rw [key]
+    have h1 : |sc w * (z - xv / sc w)| ≤ |sc w| * M.E ((P * S + M.E (P * S)) / sc w) := by
+      rw [abs_mul]
+      exact mul_le_mul_of_nonneg_left (le_trans hze hE2) (abs_nonneg _)
+    have h2 := abs_add_le (sc w * (z - xv / sc w) + (xv - pv * sv)) (pv * sv - pa * ps)
+    have h3 := abs_add_le (sc w * (z - xv / sc w)) (xv - pv * sv)
+    linarith
+
+/-- the exact product (quotient) of the amounts and of the scales are in range -/
+theorem safe_of_derivedSafe {M : ErrModel} (Wf : M.WF) (pa ps sw : Rat)
+    (h : Oracle.derivedSafe M pa ps sw = true) : M.safe pa = true ∧ M.safe ps = true := by
+  simp only [Oracle.derivedSafe, Bool.and_eq_true, ratAbs_eq_abs] at h
+  obtain ⟨⟨⟨hsP, hsS⟩, -⟩, -⟩ := h
+  have hEpa := Wf.E_nonneg pa
+  have hEps := Wf.E_nonneg ps
+  constructor
+  · apply Wf.safe_mono _ _ _ hsP
+    simp only [ratAbs_eq_abs]
+    rw [abs_of_nonneg (by positivity : 0 ≤ |pa| + M.E pa)]; linarith
+  · apply Wf.safe_mono _ _ _ hsS
+    simp only [ratAbs_eq_abs]
+    rw [abs_of_nonneg (by positivity : 0 ≤ |ps| + M.E ps)]; linarith
+
+/-- General form of `dmul_mag`: scales only non-zero, but for every NEGATIVE result-unit scale the
+quotient `X / s_u` itself (not only `X / s_u + E (X / s_u)`, which `derivedSafe` checks and which
+may cancel when `X / s_u < 0`) has to be in range.  `X` is the intermediate of `derivedBound`. -/
+theorem dmul_mag_gen {M : ErrModel} (L : Laws R M) (TL : QT A U) (TR : QT A V) (TO : QT A W)
+    (hI : TO.fitIdentity = none) (href : TO.ref ∈ TO.units)
+    (l : Q A U) (r : Q A V) (a b sl sr : Rat)
+    (ha : R.val l.amount = some a) (hb : R.val r.amount = some b)
+    (hsl : R.val (TL.scale l.unit) = some sl) (hsr : R.val (TR.scale r.unit) = some sr)
+    (sc : W → Rat) (hsc : ∀ u ∈ TO.units, R.val (TO.scale u) = some (sc u) ∧ sc u ≠ 0)
+    (hsafe : ∀ u ∈ TO.units, Oracle.derivedSafe M (a * b) (sl * sr) (sc u) = true)
+    (hneg : ∀ u ∈ TO.units, sc u < 0 →
+      M.safe (((ratAbs (a * b) + M.E (a * b)) * (ratAbs (sl * sr) + M.E (sl * sr))
+        + M.E ((ratAbs (a * b) + M.E (a * b)) * (ratAbs (sl * sr) + M.E (sl * sr)))) / sc u) = true) :
+    ∃ res z, dmul R TL TR TO l r = .ok res ∧ res.unit ∈ TO.units ∧ R.val res.amount = some z ∧
+      ratAbs (z * sc res.unit - (a * b) * (sl * sr)) ≤
+        Oracle.derivedBound M (a * b) (sl * sr) (sc res.unit) := by
+  obtain ⟨hs1, hs2⟩ := safe_of_derivedSafe L.wf _ _ _ (hsafe TO.ref href)
+  obtain ⟨s, sv, hsmul, hsv, hse⟩ := L.mul_ok _ _ sl sr hsl hsr hs2
+  obtain ⟨p, pv, hpmul, hpv, hpe⟩ := L.mul_ok _ _ a b ha hb hs1
+  rw [ratAbs_eq_abs] at hse hpe
+  obtain ⟨res, z, hcase, hmem, hz, hbound⟩ :=
+    tail_mag R L TO hI href (a * b) (sl * sr) p s pv sv hpv hsv hpe hse sc hsc hsafe hneg
+  refine ⟨res, z, ?_, hmem, hz, hbound⟩
+  rcases hcase with ⟨w, hf, rfl⟩ | ⟨hf, x, hx, hfit⟩
+  · simp [dmul, hsmul, hpmul, hf, bind, Except.bind, pure, Except.pure]
+  · simp [dmul, hsmul, hpmul, hf, hx, hfit, bind, Except.bind]
+
+/-- general form of `ddiv_mag`, see `dmul_mag_gen` -/
+theorem ddiv_mag_gen {M : ErrModel} (L : Laws R M) (TL : QT A U) (TR : QT A V) (TO : QT A W)
+    (hI : TO.fitIdentity = none) (href : TO.ref ∈ TO.units)
+    (l : Q A U) (r : Q A V) (a b sl sr : Rat)
+    (ha : R.val l.amount = some a) (hb : R.val r.amount = some b) (hb0 : b ≠ 0)
+    (hsl : R.val (TL.scale l.unit) = some sl) (hsr : R.val (TR.scale r.unit) = some sr) (hsr0 : sr ≠ 0)
+    (sc : W → Rat) (hsc : ∀ u ∈ TO.units, R.val (TO.scale u) = some (sc u) ∧ sc u ≠ 0)
+    (hsafe : ∀ u ∈ TO.units, Oracle.derivedSafe M (a / b) (sl / sr) (sc u) = true)
+    (hneg : ∀ u ∈ TO.units, sc u < 0 →
+      M.safe (((ratAbs (a / b) + M.E (a / b)) * (ratAbs (sl / sr) + M.E (sl / sr))
+        + M.E ((ratAbs (a / b) + M.E (a / b)) * (ratAbs (sl / sr) + M.E (sl / sr)))) / sc u) = true) :
+    ∃ res z, ddiv R TL TR TO l r = .ok res ∧ res.unit ∈ TO.units ∧ R.val res.amount = some z ∧
+      ratAbs (z * sc res.unit - (a / b) * (sl / sr)) ≤
+        Oracle.derivedBound M (a / b) (sl / sr) (sc res.unit) := by
+  obtain ⟨hs1, hs2⟩ := safe_of_derivedSafe L.wf _ _ _ (hsafe TO.ref href)
+  obtain ⟨s, sv, hsdiv, hsv, hse⟩ := L.div_ok _ _ sl sr hsl hsr hsr0 hs2
+  obtain ⟨p, pv, hpdiv, hpv, hpe⟩ := L.div_ok _ _ a b ha hb hb0 hs1
+  rw [ratAbs_eq_abs] at hse hpe
+  obtain ⟨res, z, hcase, hmem, hz, hbound⟩ :=
+    tail_mag R L TO hI href (a / b) (sl / sr) p s pv sv hpv hsv hpe hse sc hsc hsafe hneg
+  refine ⟨res, z, ?_, hmem, hz, hbound⟩
+  rcases hcase with ⟨w, hf, rfl⟩ | ⟨hf, x, hx, hfit⟩
+  · simp [ddiv, hsdiv, hpdiv, hf, bind, Except.bind, pure, Except.pure]
+  · simp [ddiv, hsdiv, hpdiv, hf, hx, hfit, bind, Except.bind]
+
+/- ORIGINAL STATEMENTS of `dmul_mag` / `ddiv_mag` (false as written): identical to the ones below
+  except for
+
+      (hsc : ∀ u ∈ TO.units, R.val (TO.scale u) = some (sc u) ∧ sc u ≠ 0)
+
+  i.e. the result-unit scales were only assumed NON-ZERO.  For a negative scale `s_u` the last
+  conjunct of `derivedSafe`, `safe (X / s_u + E (X / s_u))`, does not imply that the quotient
+  `x / s_u` computed by `_fit` is in range: `X / s_u` is negative, `E` is non-negative, and the
+  sum can cancel (down to zero).  `dmul_mag_false_for_negative_scale` and
+  `ddiv_mag_false_for_negative_scale` below are kernel-checked witnesses (an arithmetic satisfying
+  `Laws`, a result unit of scale `-1/100`, all original hypotheses true, the operator overflows).
+  Corrected: the scales of the result units are POSITIVE (as every scale of a generated unit table
+  is).  `dmul_mag_gen` / `ddiv_mag_gen` keep `≠ 0` and state the weakest side condition instead. -/
+
+/-- The reference-unit magnitude of `l * r` is the exact product of the operands'
+reference-unit magnitudes up to `derivedBound`, on BOTH branches of the generated body
+(natural unit found by `unit_from_scale`, or `_fit`).
+`a`, `b`: exact operand amounts; `sl`, `sr`: exact operand unit scales; `sc`: exact (positive)
+scales of the result quantity's units. -/
+theorem dmul_mag {M : ErrModel} (L : Laws R M) (TL : QT A U) (TR : QT A V) (TO : QT A W)
+    (hI : TO.fitIdentity = none) (href : TO.ref ∈ TO.units)
+    (l : Q A U) (r : Q A V) (a b sl sr : Rat)
+    (ha : R.val l.amount = some a) (hb : R.val r.amount = some b)
+    (hsl : R.val (TL.scale l.unit) = some sl) (hsr : R.val (TR.scale r.unit) = some sr)
+    (sc : W → Rat) (hsc : ∀ u ∈ TO.units, R.val (TO.scale u) = some (sc u) ∧ 0 < sc u)
+    (hsafe : ∀ u ∈ TO.units, Oracle.derivedSafe M (a * b) (sl * sr) (sc u) = true) :
+    ∃ res z, dmul R TL TR TO l r = .ok res ∧ res.unit ∈ TO.units ∧ R.val res.amount = some z ∧
+      ratAbs (z * sc res.unit - (a * b) * (sl * sr)) ≤
+        Oracle.derivedBound M (a * b) (sl * sr) (sc res.unit) :=
+  dmul_mag_gen R L TL TR TO hI href l r a b sl sr ha hb hsl hsr sc
+    (fun u hu => ⟨(hsc u hu).1, ne_of_gt (hsc u hu).2⟩) hsafe
+    (fun u hu hlt => absurd hlt (not_lt.mpr (le_of_lt (hsc u hu).2)))
+
+/-- the same for `l / r` (non-zero divisor amount and divisor scale) -/
+theorem ddiv_mag {M : ErrModel} (L : Laws R M) (TL : QT A U) (TR : QT A V) (TO : QT A W)
+    (hI : TO.fitIdentity = none) (href : TO.ref ∈ TO.units)
+    (l : Q A U) (r : Q A V) (a b sl sr : Rat)
+    (ha : R.val l.amount = some a) (hb : R.val r.amount = some b) (hb0 : b ≠ 0)
+    (hsl : R.val (TL.scale l.unit) = some sl) (hsr : R.val (TR.scale r.unit) = some sr) (hsr0 : sr ≠ 0)
+    (sc : W → Rat) (hsc : ∀ u ∈ TO.units, R.val (TO.scale u) = some (sc u) ∧ 0 < sc u)
+    (hsafe : ∀ u ∈ TO.units, Oracle.derivedSafe M (a / b) (sl / sr) (sc u) = true) :
+    ∃ res z, ddiv R TL TR TO l r = .ok res ∧ res.unit ∈ TO.units ∧ R.val res.amount = some z ∧
+      ratAbs (z * sc res.unit - (a / b) * (sl / sr)) ≤
+        Oracle.derivedBound M (a / b) (sl / sr) (sc res.unit) :=
+  ddiv_mag_gen R L TL TR TO hI href l r a b sl sr ha hb hb0 hsl hsr hsr0 sc
+    (fun u hu => ⟨(hsc u hu).1, ne_of_gt (hsc u hu).2⟩) hsafe
+    (fun u hu hlt => absurd hlt (not_lt.mpr (le_of_lt (hsc u hu).2)))
+
+/-! ### why the scales have to be positive: kernel-checked witnesses -/
+
+namespace NegScale
+
+/-- a (contrived) rounding model: relative error up to 100 %, range `[-10, 10]` -/
+def M : ErrModel := { E := fun x => ratAbs x, Ea := fun _ => 0, safe := fun x => decide (ratAbs x ≤ 10) }
+
+/-- exact rational arithmetic that overflows outside the range of `M` (except where
+`Laws` demands an exact answer) -/
+def Rq : Arith Rat where
+  zero := 0
+  one := 1
+  add := fun a b => .ok (a + b)
+  sub := fun a b => .ok (a - b)
+  mul := fun a b =>
+    if M.safe (a * b) || decide (a = 1) || decide (b = 1) then .ok (a * b) else .error .overflow
+  div := fun a b =>
+    if b = 0 then .error .divByZero
+    else if M.safe (a / b) || decide (b = 1) then .ok (a / b) else .error .overflow
+  neg := fun a => .ok (-a)
+  beq := fun a b => decide (a = b)
+  pcmp := fun a b => some (ratCmp a b)
+  val := some
+  ofLit := fun _ => none
+  same := fun a b => decide (a = b)
+
+theorem wf : M.WF where
+  E_nonneg := fun x => by simp only [M, ratAbs_eq_abs]; exact abs_nonneg x
+  E_mono := fun x y h => h
+  Ea_nonneg := fun _ => le_refl _
+  Ea_mono := fun _ _ _ => le_refl _
+  safe_mono := fun x y h hy => by
+    simp only [M, decide_eq_true_eq] at *
+    exact le_trans h hy
+
+theorem laws : Laws Rq M where
+  wf := wf
+  mul_ok := by
+    intro a b x y ha hb hs
+    cases ha; cases hb
+    refine ⟨a * b, a * b, by simp [Rq, hs], rfl, ?_⟩
+    simp only [sub_self, M, ratAbs_eq_abs, abs_zero]; exact abs_nonneg _
+  div_ok := by
+    intro a b x y ha hb hy hs
+    cases ha; cases hb
+    refine ⟨a / b, a / b, by simp [Rq, hs, hy], rfl, ?_⟩
+    simp only [sub_self, M, ratAbs_eq_abs, abs_zero]; exact abs_nonneg _
+  add_ok := by
+    intro a b x y ha hb _ _ _
+    cases ha; cases hb
+    exact ⟨a + b, a + b, rfl, rfl, by simp [M, ratAbs]⟩
+  sub_ok := by
+    intro a b x y ha hb _ _ _
+    cases ha; cases hb
+    exact ⟨a - b, a - b, rfl, rfl, by simp [M, ratAbs]⟩
+  beq_val := by intro a b x y ha hb; cases ha; cases hb; rfl
+  pcmp_val := by intro a b x y ha hb; cases ha; cases hb; rfl
+  beq_pcmp := by
+    intro a b
+    show decide (a = b) = (some (ratCmp a b) == some .eq)
+    unfold ratCmp
+    rcases lt_trichotomy a b with h | h | h
+    · simp [h, ne_of_lt h]
+    · subst h; simp
+    · simp [not_lt.mpr (le_of_lt h), ne_of_gt h]
+  pcmp_flip := by
+    intro a b
+    show some (ratCmp b a) = Oracle.flipOrd (some (ratCmp a b))
+    rw [C02.ratCmp_flip]
+  one_val := rfl
+  zero_val := rfl
+  div_self_val := by
+    intro a b x ha hb hx
+    cases ha; cases hb
+    refine ⟨1, ?_, rfl⟩
+    have h1 : ratAbs (1 : Rat) ≤ 10 := by decide +kernel
+    simp [Rq, hx, M, h1]
+  one_mul_val := by
+    intro c d y hc hd
+    cases hc; cases hd
+    exact ⟨d, by simp [Rq], rfl⟩
+  mul_one_val := by
+    intro c d y hc hd
+    cases hc; cases hd
+    exact ⟨d, by simp [Rq], rfl⟩
+  div_one_val := by
+    intro c d y hc hd
+    cases hc; cases hd
+    exact ⟨d, by simp [Rq], rfl⟩
+
+def TI : QT Rat Unit := { units := [()], scale := fun _ => 1, hasPrefix := fun _ => false, ref := () }
+def TO : QT Rat Unit := { units := [()], scale := fun _ => -1/100, hasPrefix := fun _ => false, ref := () }
+
+end NegScale
+
+/-- The original statement of `dmul_mag` (scales only assumed non-zero) is false: with a
+result unit of scale `-1/100` all hypotheses hold, but the operator overflows in `_fit`. -/
+theorem dmul_mag_false_for_negative_scale :
+    ∃ (M : ErrModel) (R : Arith Rat) (_ : Laws R M) (TL TR TO : QT Rat Unit)
+      (l r : Q Rat Unit) (a b sl sr : Rat) (sc : Unit → Rat),
+      TO.fitIdentity = none ∧ TO.ref ∈ TO.units ∧
+      R.val l.amount = some a ∧ R.val r.amount = some b ∧
+      R.val (TL.scale l.unit) = some sl ∧ R.val (TR.scale r.unit) = some sr ∧
+      (∀ u ∈ TO.units, R.val (TO.scale u) = some (sc u) ∧ sc u ≠ 0) ∧
+      (∀ u ∈ TO.units, Oracle.derivedSafe M (a * b) (sl * sr) (sc u) = true) ∧
+      dmul R TL TR TO l r = .error .overflow := by
+  refine ⟨NegScale.M, NegScale.Rq, NegScale.laws, NegScale.TI, NegScale.TI, NegScale.TO,
+    ⟨1, ()⟩, ⟨1, ()⟩, 1, 1, 1, 1, fun _ => -1/100, rfl, by simp [NegScale.TO], rfl, rfl, rfl, rfl,
+    ?_, ?_, ?_⟩
+  · intro u _; exact ⟨rfl, by norm_num⟩
+  · intro u _
+    show Oracle.derivedSafe NegScale.M (1 * 1) (1 * 1) (-1 / 100) = true
+    decide +kernel
+  · decide +kernel
+
+/-- the same for the original statement of `ddiv_mag` -/
+theorem ddiv_mag_false_for_negative_scale :
+    ∃ (M : ErrModel) (R : Arith Rat) (_ : Laws R M) (TL TR TO : QT Rat Unit)
+      (l r : Q Rat Unit) (a b sl sr : Rat) (sc : Unit → Rat),
+      TO.fitIdentity = none ∧ TO.ref ∈ TO.units ∧
+      R.val l.amount = some a ∧ R.val r.amount = some b ∧ b ≠ 0 ∧
+      R.val (TL.scale l.unit) = some sl ∧ R.val (TR.scale r.unit) = some sr ∧ sr ≠ 0 ∧
+      (∀ u ∈ TO.units, R.val (TO.scale u) = some (sc u) ∧ sc u ≠ 0) ∧
+      (∀ u ∈ TO.units, Oracle.derivedSafe M (a / b) (sl / sr) (sc u) = true) ∧
+      ddiv R TL TR TO l r = .error .overflow := by
+  refine ⟨NegScale.M, NegScale.Rq, NegScale.laws, NegScale.TI, NegScale.TI, NegScale.TO,
+    ⟨1, ()⟩, ⟨1, ()⟩, 1, 1, 1, 1, fun _ => -1/100, rfl, by simp [NegScale.TO], rfl, rfl,
+    one_ne_zero, rfl, rfl, one_ne_zero, ?_, ?_, ?_⟩
+  · intro u _; exact ⟨rfl, by norm_num⟩
+  · intro u _
+    show Oracle.derivedSafe NegScale.M (1 / 1) (1 / 1) (-1 / 100) = true
+    decide +kernel
+  · decide +kernel
+
+/-- non-vacuity: 3 m · 2 m in the decimal back-end with result units (mm², m²) -/
+example : Oracle.derivedSafe ErrModel.dec 6 1 1 = true := by decide +kernel
+
 end Qty.C04
